@@ -8,3 +8,8 @@ import TlxVerif.Props.C11
 #print axioms TlxVerif.C11.barM_action_by_last_arriver
 #print axioms TlxVerif.C11.barM_no_deadlock
 #print axioms TlxVerif.C11.barM_actions_total
+#print axioms TlxVerif.C11.barS_release_together
+#print axioms TlxVerif.C11.barS_releaser_is_last_arriver
+#print axioms TlxVerif.C11.barS_action_by_releaser
+#print axioms TlxVerif.C11.barS_no_deadlock
+#print axioms TlxVerif.C11.barS_actions_total
